@@ -19,7 +19,10 @@ COMPONENTS = {
     'stub': ['OS thread scheduling', 'clocks', 'os.urandom', 'object store (SimStore)'],
 }
 ASSUMPTIONS = ['scrypt n capped at 2**10 (cost)', 'the probe file has a single chunk, so tiny digest sizes cannot collide']
-PROBES = ['near_miss_unlock_tried', 'init_rejected', 'init_accepted', 'addkey_rejected', 'addkey_accepted', 'cross_unlock_tried', 'foreign_repository_in_cache', 'key_written_over_longer_file']
+PROBES = ['near_miss_unlock_tried', 'init_rejected', 'init_accepted', 'addkey_rejected', 'addkey_accepted', 'cross_unlock_tried', 'foreign_repository_in_cache', 'key_written_over_longer_file', 'kdf_costlier_than_shipped_default']
+# a fifth of the budget runs again under `python -O`: validation of settings must not be an assert
+ENV_VARIANT = {'PYTHONOPTIMIZE': '1'}
+VARIANT_SHARE = 0.2
 TIERS = {'quick': {'budget_s': 60, 'batch': 20}, 'thorough': {'budget_s': 600, 'batch': 40}}
 
 BAD_INTS = [0, -1, -64, 1, 3, 7, 8.5, 64.0, '64', True, None, 10**6, 4097]
@@ -110,6 +113,11 @@ def gen_case(seed, tier):
                 ks['hashing'] = {'name': 'sha2'}
         keys.append({'kind': kind, 'parent': rng.randrange(0, i + 1), 'settings': ks})
     long_pw = rng.random() < 0.35
+    if substream(seed, 'c17-costly').random() < 1 / 3000:
+        # a work factor above the shipped default (n*r*p > 2**23; seconds per derivation): accepted, hence usable
+        return {'seed': seed, 'sched_seed': seed, 'settings': {'encryption': {'kdf': {'name': 'scrypt', 'n': 16384, 'r': 8, 'p': 65}}}, 'keys': [],
+                'long_passwords': False, 'flavour': 'async', 'N': 1, 'opts': world.SchedOpts.sequential().as_dict(), 'probe_size': 3,
+                'foreign_cache': False, 'key_files': False, 'costly': True}
     return {'seed': seed, 'sched_seed': seed, 'settings': gen_settings(rng), 'keys': keys, 'long_passwords': long_pw,
             'flavour': rng.choice(['sync', 'async']), 'N': rng.choice([1, 2, 3]),
             'opts': world.SchedOpts.swarm(rng).as_dict(),
@@ -118,8 +126,10 @@ def gen_case(seed, tier):
             'key_files': substream(seed, 'c17-keyfiles').random() < 0.3}
 
 
-def _safe_for_sim(settings):
-    """Keep the scrypt cost bounded (n <= 2**10, r <= 8, p <= 2) - anything larger is only slow, not different."""
+def _safe_for_sim(settings, costly=False):
+    """Keep the scrypt cost bounded (n <= 2**10, r <= 8, p <= 8) in all but a few cases per run."""
+    if costly:
+        return settings
     try:
         k = settings['encryption']['kdf']
         if isinstance(k.get('n'), int) and not isinstance(k.get('n'), bool) and k['n'] > 1024:
@@ -149,7 +159,9 @@ def _run_case(case):
     W = harness.World(case['sched_seed'], 'c17', flavour=case['flavour'], lat_kind='uniform', lat=0.005)
     try:
         opts = world.SchedOpts.from_dict(case['opts'])
-        settings = _safe_for_sim(copy.deepcopy(case['settings']))
+        settings = _safe_for_sim(copy.deepcopy(case['settings']), case.get('costly'))
+        if case.get('costly'):
+            probes['kdf_costlier_than_shipped_default'] = 1
         enc_requested = settings.get('encryption', {}) is not None
         # long pass-phrases that agree on their first 64+ bytes (key files, sentences)
         stem = (b'correct horse battery staple ' * 4)[:70] if case.get('long_passwords') else b''
@@ -159,7 +171,7 @@ def _run_case(case):
             # digests of a few bytes collide for real (1 in 256 for length 1); the cache verifies entries by digest,
             # and "hash collisions do not occur" is an assumption of every check
             cache = None
-        owner = world.Client('owner', password=stem + b'owner password', concurrent=case['N'], cache_dir=cache)
+        owner = world.Client('owner', password=stem + ('owner password' + (' ²№ Ｂ' if case['sched_seed'] % 3 == 0 else '')).encode(), concurrent=case['N'], cache_dir=cache)
         kp = None
         if case.get('key_files'):
             # keys go to a file (-o), always the same path, which holds an older and longer file already;
@@ -226,7 +238,9 @@ def _run_case(case):
                 async def noop(repo):
                     return True
                 for a in clients:
-                    near = [a.password[:-1], a.password + b'\n', a.password[:64], a.password[:-1] + bytes([a.password[-1] ^ 1])]
+                    near = [a.password[:-1], a.password + b'\n', a.password[:64], a.password[:-1] + bytes([a.password[-1] ^ 1])] + gen.look_alike_passwords(a.password)
+                    if case.get('costly'):
+                        near = near[:1]       # (each try costs seconds)
                     for pw in near:
                         if pw == a.password or not pw:
                             continue
